@@ -473,6 +473,10 @@ def rule_admission(ck, facts):
 
 
 def run(ck, facts, tier):
+    # an index the VM does not bring into range before it slices the array is a crash, not only a VM / WASM difference
+    from . import prims as _prims
+
+    _prims.rule_array_index(ck, facts, "C01.prims")
     from ..rules import scratchlocal as _sl
 
     _cov = roles.wasm_lowering(facts)
